@@ -182,6 +182,32 @@ fn check(mask: u32, fns: &[&FnSpec], label: &str) -> Vec<Viol> {
 /// U-scale for traversals: section lengths, function / block / instruction counts on both sides of 2^8 and 2^16
 fn big_modules() -> Vec<(String, Box<dyn Fn() -> dr::Module + Sync + Send>)> {
     let mut out: Vec<(String, Box<dyn Fn() -> dr::Module + Sync + Send>)> = vec![];
+    // every ordered pair of the 787 opcodes as neighbours inside one block, inside one function's parameter list region
+    // and in types_global_values (an assembler or traversal that treats X-followed-by-Y specially is seen)
+    out.push(("big: every ordered pair of opcodes adjacent in a block and in a global section".to_string(), Box::new(|| {
+        let ops: Vec<spirv::Op> = crate::golden::golden().insts.iter().filter_map(|gi| spirv::Op::from_u32(gi.opcode as u32)).collect();
+        let mut id = 0u32;
+        let mut seq = |n_ops: usize| -> Vec<dr::Instruction> {
+            let mut v = Vec::with_capacity(2 * n_ops * n_ops);
+            for x in 0..n_ops {
+                for y in 0..n_ops {
+                    for o in [x, y] {
+                        id += 1;
+                        v.push(dr::Instruction::new(ops[o], None, Some(id), vec![dr::Operand::LiteralBit32(id ^ 0x3333)]));
+                    }
+                }
+            }
+            v
+        };
+        let mut m = dr::Module::new();
+        let mut f = dr::Function::new();
+        let mut b = dr::Block::new();
+        b.instructions = seq(ops.len());
+        f.blocks.push(b);
+        m.functions.push(f);
+        m.types_global_values = seq(ops.len());
+        m
+    })));
     for n in [255usize, 256, 257, 65535, 65536, 65537] {
         out.push((format!("big: every section {} instructions", n), Box::new(move || {
             let mut g = Gen { next: 0 };
